@@ -110,6 +110,8 @@ pub struct Harness {
     /// HTTP twins of the other connections: (user the twin is logged in as, client)
     pub http_twins: BTreeMap<usize, (u32, iggy::http::client::HttpClient)>,
     pub http_rng: crate::rng::Rng,
+    /// JWTs revoked by a logout earlier in the run: refused for good, also after restarts
+    pub revoked_http_tokens: Vec<String>,
     pub log: Vec<String>,
     pub verbose: bool,
     pub key_affinity: BTreeMap<(u32, u32, Vec<u8>, u32), u32>,
@@ -219,6 +221,7 @@ impl Harness {
             snapshot_horizon: None,
             http0: None,
             http_twins: BTreeMap::new(),
+            revoked_http_tokens: Vec::new(),
             http_rng: crate::rng::Rng::substream(0x4854_5450, "http-route"),
             log: Vec::new(),
             verbose: std::env::var("VERIF_VERBOSE").is_ok(),
